@@ -252,6 +252,12 @@ def _worker(job):
         root = os.path.realpath(os.environ.get("QUCUMBER_REPO", "/repo"))
         last = fr[-1] if fr else None
         in_lib = bool(last) and (os.path.realpath(last.filename).startswith(root + os.sep) or last.filename.startswith("<sandbox:"))
+        if isinstance(e, st.TorchRefuses):
+            # a torch primitive refuses the library's call (a modelled precondition of the primitive): the failing operation
+            # is the library's innermost frame
+            libfr = [f for f in fr if os.path.realpath(f.filename).startswith(root + os.sep) or f.filename.startswith("<sandbox:")]
+            if libfr:
+                last, in_lib = libfr[-1], True
         if in_lib and isinstance(e, (ValueError, RuntimeError, TypeError, AssertionError, NotImplementedError)) and (last.line or "").strip().startswith("raise "):
             # ... unless the library itself refuses (an explicit `raise` in library code) an input that the harness built
             # inside the property's domain: the operation is not defined where the property says it is
